@@ -178,6 +178,11 @@ pub fn gen_heap(args: &Args) {
             cfgd.insert(0, "stel tekst_g = \"globaal\"; stel lijst_g = [1.5, \"in lijst\", [2.5]]".to_string());
             cfgd.insert(2.min(cfgd.len()), "print(\"hallo {}\", onbekende_naam, 2.25)".to_string());
             cfgd.insert(3.min(cfgd.len()), "stel kort = \"leeft kort\"; lijst_g[0] = 9.75; 1 / 0".to_string());
+            // values of THIS line stored into an array of an EARLIER line, then collections (calls), then reads:
+            // the collector of this run does not manage the old array but must keep what it now holds
+            cfgd.insert(5.min(cfgd.len()), "functie verzamel() { [string(1), 2.5] }; lijst_g[1] = string(42); lijst_g[2] = [string(7), 0.5]; verzamel(); verzamel(); lijst_g".to_string());
+            cfgd.insert(6.min(cfgd.len()), "functie niets() { 0 }; stel omvat = [lijst_g, string(3)]; niets(); stel binnen = omvat[0]; niets(); [binnen[1], omvat[1]]".to_string());
+            cfgd.insert(7.min(cfgd.len()), "functie niets() { 0 }; niets(); print(lijst_g); lijst_g[1]".to_string());
             cfgd.push("print(\"hallo {}\", tekst_g, 2.25); lijst_g".to_string());
             cfgd.push("[tekst_g, lijst_g[2], \"in lijst\"][5]".to_string());
             cfgd.push("lengte(tekst_g) + lengte(lijst_g)".to_string());
